@@ -159,6 +159,7 @@ func cmdCheck(args []string) int {
 	var vcs []*VC
 	var fnsUnder []string
 	var trustedUsed = map[string]bool{}
+	var thoroughOnly []string
 	loadErr := e.load(cfg.Packages)
 	if loadErr == nil {
 		loadErr = e.loadSpecs(filepath.Join(verifDir, "prelude"))
@@ -179,6 +180,11 @@ func cmdCheck(args []string) int {
 				continue
 			}
 			if *only != "" && !strings.Contains(k, *only) {
+				continue
+			}
+			if c.Opts["tier"] == "thorough" && *tier != "thorough" {
+				// expensive function: its own obligations are checked in the thorough tier only (callers still use its contract)
+				thoroughOnly = append(thoroughOnly, shortName(k))
 				continue
 			}
 			keys = append(keys, k)
@@ -355,6 +361,7 @@ func cmdCheck(args []string) int {
 		"undischarged":             undecided,
 		"bounded":                  cfg.Bounded,
 		"not_covered":              cfg.NotCovered,
+		"functions_checked_in_thorough_tier_only": thoroughOnly,
 		"explanation":              "Each obligation is a closed SMT-LIB script (assumptions and negated goal) generated from the go/ssa form of the real function bodies in /repo plus the //@ contracts in zz_verif_contracts.go; 'discharged' counts scripts answered unsat. Obligations listed under known_findings fail on the unchanged tree because of a genuine defect recorded in /verif/known_findings.txt and are excluded from 'obligations'.",
 	}
 	ev := map[string]any{
